@@ -37,7 +37,7 @@ func c18Instant(r *fw.Rand, margin int64) (int64, string) {
 	maxNs := eraEndUnix*1e9 - margin - 1
 	var ns int64
 	var cl string
-	switch r.Intn(8) {
+	switch r.Intn(10) {
 	case 0, 1:
 		ns, cl = int64(r.U64()%uint64(maxNs)), "uniform"
 	case 2, 3: // around a 64 s boundary of the NTP second counter (NTP seconds = unix + 2208988800, which is a multiple of 64)
@@ -50,6 +50,9 @@ func c18Instant(r *fw.Rand, margin int64) (int64, string) {
 		ns, cl = maxNs-int64(r.U64()%uint64(70e9)), "era-end"
 	case 6: // first seconds of 1970
 		ns, cl = int64(r.U64()%uint64(130e9)), "epoch-start"
+	case 7: // within a nanosecond of a boundary of the 2^-18 s field unit (where the 24-bit field changes)
+		k := int64(r.U64() % uint64(maxNs>>12))
+		ns, cl = int64((uint64(k)*1000000000)>>18)+int64(r.Pick(-1, 0, 0, 1)), "field-unit-boundary"
 	default: // exactly representable fractions
 		k := int64(r.U64() % uint64(maxNs/1e9))
 		ns, cl = k*1e9+int64(r.Pick(0, 500000000, 250000000, 999999999, 1, 3814, 3815, 3816)), "fraction"
@@ -163,7 +166,9 @@ func c18Estimate(c *fw.Ctx, _ int) {
 			delay, dcl = 0, "zero"
 		case 1:
 			delay, dcl = int64(r.Intn(10000)), "<10us"
-		case 2, 3:
+		case 2:
+			delay, dcl = maxDelay-int64(r.Pick(0, 0, 1, 2, 3)), "largest-allowed" // 64 s - 3815 ns is the largest whole-ns delay below 64 s - 2^-18 s
+		case 3:
 			delay, dcl = maxDelay-1-int64(r.Intn(10000)), "just-below-64s"
 		case 4:
 			delay, dcl = int64(63e9)+int64(r.U64()%uint64(maxDelay-63e9)), "63-64s"
